@@ -53,8 +53,6 @@ func (t *testSuffrageProof) prepare(point base.Point) {
 		previousHash = t.previous.Hash()
 	}
 
-	t.blockMap = t.newmap(t.point.Height(), t.Local)
-
 	var suffrageheight base.Height
 	if t.previous != nil {
 		suffrageheight = t.previous.Value().(base.SuffrageNodesStateValue).Height() + 1
@@ -84,13 +82,15 @@ func (t *testSuffrageProof) prepare(point base.Point) {
 	t.NoError(err)
 
 	t.proof, _ = tr.Proof(t.current.Hash().String())
+
+	t.blockMap = t.newmap(t.point.Height(), t.Local, tr.Root())
 }
 
 func (t *testSuffrageProof) newitem(ty base.BlockItemType) BlockMapItem {
 	return NewBlockMapItem(ty, util.UUID().String())
 }
 
-func (t *testSuffrageProof) newmap(height base.Height, local base.LocalNode) BlockMap {
+func (t *testSuffrageProof) newmap(height base.Height, local base.LocalNode, statestree util.Hash) BlockMap {
 	m := NewBlockMap()
 
 	for _, i := range []base.BlockItemType{
@@ -105,6 +105,8 @@ func (t *testSuffrageProof) newmap(height base.Height, local base.LocalNode) Blo
 	}
 
 	manifest := base.NewDummyManifest(height, valuehash.RandomSHA256())
+	manifest.SetStatesTree(statestree)
+
 	switch {
 	case t.previous == nil:
 		manifest.SetSuffrage(nil)
